@@ -143,7 +143,7 @@ func c07Delete(c *Ctx, m *Module) {
 	for _, fn := range m.PkgFuncs("internal/upload") {
 		for _, cs := range callsIn(fn, "os.Remove", "os.RemoveAll") {
 			nm := describe(argsOf(cs)[0])
-			switch fname(fn) {
+			switch fnameTop(fn) {
 			case "(*internal/upload.uploader).deleteFiles":
 				r.Check("C07.delete-after-report", "deleteFiles/removes its argument's elements", m.Pos(cs.Pos()), strings.HasPrefix(nm, "param:files["), "got "+nm)
 			case "(*internal/upload.uploader).uploadReportContents":
